@@ -259,6 +259,11 @@ def check_case(case, rec_):
         elif cont in ("wav_eager", "wav_lazy"):
             inp = stem + ".wav"
             write_wav(inp, data, sr, sw, ch)
+            if case.get("wav_trailer"):
+                from .c10 import add_wav_trailer
+
+                add_wav_trailer(inp)  # a LIST/INFO chunk after the audio, as recorders and editors write it
+                classes.add("wav_with_chunk_after_the_audio")
             paths.append(inp)
             if cont == "wav_lazy":
                 kw["large_file"] = True
@@ -350,6 +355,9 @@ def explicit_cases():
                     "mr": [7, 0.25] if i % 3 == 0 else None})
     bigw = {"sr": 48000, "sw": 2, "ch": 1, "B": 66000, "pat": "0110", "tail": [100, 0], "al": 3000, "aq": 0, "salt": 8, "uc": None}
     out.append({"audio": bigw, "win": [1, 3, 0, False, False], "container": "wav_lazy", "spell": {}, "mr": None})
+    out.append({"audio": base, "win": [2, 4, 1, False, False], "container": "wav_lazy", "spell": {}, "mr": None, "wav_trailer": True})
+    out.append({"audio": base, "win": [2, 4, 1, False, False], "container": "wav_eager", "spell": {}, "mr": [30, 0.5], "wav_trailer": True})
+    out.append({"audio": dict(base, sw=1, ch=1, B=3, tail=[2, 1]), "win": [1, 4, 1, False, False], "container": "wav_eager", "spell": {}, "mr": None, "wav_trailer": True})
     out.append({"audio": bigw, "win": [1, 3, 0, False, False], "container": "stdin", "spell": {}, "mr": None})
     out.append({"audio": base, "win": [2, 4, 1, False, False], "container": "stdin", "spell": {"sr": "both_rev", "eth": "both_rev", "mr": "both_rev"},
                 "mr": [9, 0], "second_stdin_split": True})
@@ -362,6 +370,7 @@ def explicit_cases():
 def strategy(draw, maxwin):
     c = draw(audio.audio_case(maxwin=maxwin, maxB=8, shapes="light"))
     c["container"] = draw(st.sampled_from(CONTAINERS))
+    c["wav_trailer"] = draw(st.booleans())
     names = draw(st.lists(st.sampled_from(sorted(PAIRS)), unique=True, max_size=5))
     c["spell"] = {n: draw(st.sampled_from(["short", "both", "long", "both_rev"])) for n in names}
     if "val" in c["spell"] and draw(st.booleans()):
